@@ -413,3 +413,61 @@ def check_queue_pairing(ctx, rule, sites, single_consumer_ok=None, single_produc
             ctx.ob(rule + "d", "%s: non-concurrent push" % field, ok, "%s:%s" % (nc_push[0]["fn"].file, nc_push[0]["line"]),
                    "queue '%s' is pushed with CONCURRENT=false from more than one function" % field, site="%s@push" % field)
     return by_field
+
+
+def _null_test(atom, pol, var):
+    """does this edge tell whether local `var` is null? returns 'N', 'NN' or None"""
+    a = strip_cast(atom)
+
+    def is_var(d):
+        d = strip_cast(d)
+        return isinstance(d, dict) and d.get("k") == "l" and d.get("id") == var["id"] and d.get("fr", var["fr"]) == var["fr"]
+    if is_var(a):
+        return "NN" if pol else "N"
+    c = cmp_parts(a)
+    if c is not None:
+        op, l, r = c
+        if is_var(r) and const_val(l) == "null":
+            l, r = r, l
+        if is_var(l) and const_val(r) == "null" and op in ("==", "!="):
+            truth = (op == "!=") == pol
+            return "NN" if truth else "N"
+    return None
+
+
+def reach_nullaware(ig, starts, var, removed_edges=(), removed=()):
+    """forward reachability that tracks whether pointer local `var` is known null / non-null and
+    drops edges contradicting that knowledge (same-variable null-test correlation, DESIGN 2.1)"""
+    from collections import deque
+    removed_edges = set(removed_edges)
+    removed = set(n.id for n in removed)
+    seen = set()
+    dq = deque()
+    for s in starts:
+        dq.append((s, "U"))
+        seen.add((s.id, "U"))
+    out = set()
+    while dq:
+        n, st = dq.popleft()
+        out.add(n.id)
+        if n.kind == "ev" and defines_var(ig, n, var):
+            st = "U"
+            ev = n.ev
+            rhs = ev.get("init") if ev["e"] == "decl" else ev.get("rhs")
+            if const_val(rhs) == "null":
+                st = "N"
+        for m, lab in n.succ:
+            if (n.id, m.id) in removed_edges or m.id in removed:
+                continue
+            nst = st
+            if lab is not None and lab.cond is not None and lab.pol is not None and lab.frame.id == var["fr"]:
+                atom, pol = cond_atoms(ig.resolve(lab.cond, lab.frame), lab.pol)
+                t = _null_test(atom, pol, var)
+                if t is not None:
+                    if st != "U" and st != t:
+                        continue
+                    nst = t
+            if (m.id, nst) not in seen:
+                seen.add((m.id, nst))
+                dq.append((m, nst))
+    return out
